@@ -477,8 +477,46 @@ pub fn long_run(sc: &VmSc, obs: &mut Obs) -> Vec<Tagged> {
     let mut steps = 0usize;
     let mut ambiguous = false;
     let mut model_fatal: Option<(usize, String)> = None;
+    let giant = init.giant > 0;
+    if giant {
+        obs.hit("probe.giant-block>=65536-children");
+    }
     while steps < l {
         let Some(p) = m.exec.pop() else { break };
+        if giant {
+            // in-place forms of the successful cases of the cheapest instructions (a general model step copies
+            // the whole state, which is quadratic over a block of 10^5 children); every failing case and every
+            // other instruction goes through `perform` below
+            let done = match &p {
+                Prog::B(ch) if ch.len().checked_add(m.exec.len()).is_some_and(|t| t <= m.caps[0]) => {
+                    m.exec.extend(ch.iter().rev().cloned());
+                    true
+                }
+                Prog::I(Ins::PushInt(v)) if m.int.len() < m.caps[1] => {
+                    m.int.push(*v);
+                    true
+                }
+                Prog::I(Ins::PushBool(b)) if m.bool.len() < m.caps[3] => {
+                    m.bool.push(*b);
+                    true
+                }
+                // (popping an empty stack is a recoverable error: the instruction is skipped, the step counts)
+                Prog::I(Ins::Pop(Ty::Int)) => {
+                    m.int.pop();
+                    true
+                }
+                Prog::I(Ins::Pop(Ty::Bool)) => {
+                    m.bool.pop();
+                    true
+                }
+                Prog::I(Ins::Exec(ExecOp::Noop)) => true,
+                _ => false,
+            };
+            if done {
+                steps += 1;
+                continue;
+            }
+        }
         let mut outs = pushmodel::perform(&m, &p);
         if outs.len() != 1 {
             ambiguous = true;
@@ -496,7 +534,7 @@ pub fn long_run(sc: &VmSc, obs: &mut Obs) -> Vec<Tagged> {
             break;
         }
         steps += 1;
-        if steps % 256 == 0 && (m.exec.iter().map(Prog::nodes).sum::<usize>() > 40_000 || printed.len() > 8_000_000) {
+        if !giant && steps % 256 == 0 && (m.exec.iter().map(Prog::nodes).sum::<usize>() > 40_000 || printed.len() > 8_000_000) {
             ambiguous = true; // cost bound of the harness
             break;
         }
